@@ -33,6 +33,11 @@ def make_case(rnd, lname, tlib, bf):
     mod = hdl.random_hdl_module(rnd, tlib, c11.MENU[lname])
     text = hdl.render_verilog(mod, random.Random(rnd.randrange(1 << 30)))
     c = verilog.parse(text, tlib=tlib, branchforks=bf)
+    noforks = (not bf) and rnd.random() < 0.25
+    if noforks:
+        # cells wired directly to cells and ports (the named forks are gone): a line - also line 0 - feeds a cell pin
+        # directly; only IOPATH entries make sense here
+        c.eliminate_1to1_forks()
     st = project(c)
     idx = {n.name: n.index for n in c.nodes if n.kind != '__fork__'}
     nextv = [8]
@@ -86,7 +91,7 @@ def make_case(rnd, lname, tlib, bf):
             if tlib.pin_is_output(kind, p):
                 drivers[s] = (iname, p, kind)
     for s, rds in readers.items():
-        if s not in drivers:
+        if s not in drivers or noforks:
             continue
         dn, dp, dk = drivers[s]
         nread = len(rds)
@@ -111,7 +116,7 @@ def make_case(rnd, lname, tlib, bf):
     for kind, iname, pm in mod['insts']:
         pins = tlib.cells[kind][1]
         for p, (pi, po) in pins.items():
-            if p in pm or rnd.random() < 0.5 or not drivers:
+            if p in pm or rnd.random() < 0.5 or not drivers or noforks:
                 continue
             r, f = vals(), vals()
             if po:
